@@ -57,7 +57,9 @@ ReducePx(mode, p1, p2, p3, p4) == [ch \in 1..NCh(mode) |-> ReducePair(mode, <<p1
 
 \* ---------------------------------------------------------------- pixels and tiles
 UPx(mode) == [ch \in 1..NCh(mode) |-> Undef]
-IsUPx(mode, px) == IF mode = "Colour" THEN px[4][2] = 0 ELSE IF mode = "Float" THEN px[1] = Undef ELSE px[1][2] = 0
+\* Integer data has no undefined value: 0 is only what a MISSING child contributes to the mosaic (and a value like
+\* any other when stored), so an integer tile is never "entirely undefined" and a parent exists whenever a child does.
+IsUPx(mode, px) == IF mode = "Colour" THEN px[4][2] = 0 ELSE IF mode = "Float" THEN px[1] = Undef ELSE FALSE
 \* a leaf pixel as given by the case: <<>> = undefined (Float only), <<1, 0>> / <<-1, 0>> = +inf / -inf (Float only),
 \* else the channel values
 LeafPx(mode, v) == IF v = <<>> THEN UPx(mode)
